@@ -17,6 +17,7 @@ import (
 	"path/filepath"
 	"sort"
 	"strings"
+	"syscall"
 	"time"
 
 	"verifharness/vlib"
@@ -171,6 +172,321 @@ func genBookmarks(r *vlib.Rng) vlib.Case {
 	return vlib.Case{Kind: "bookmarks", Coq: fmt.Sprintf("KBookmarks %s %s", in, out),
 		Desc: map[string]interface{}{"levels": levels, "pages": nPages, "outcome": o, "outline": outlineDesc(root)}, Tags: tags,
 		Nontrivial: total >= 2}
+}
+
+// traceTerm prints the recorded trace as Coq terms.  A very long trace (e.g.
+// thousands of wave segments) overflows coqc's stack: the monitor then runs on
+// a prefix (sound: acceptance is prefix closed, C14_protocol_prefix_closed; the
+// page count / balance test is dropped).
+type traceInfo struct {
+	Trace     string         // list of calls
+	Rules     []int          // rules the harness side shadow saw violated, sorted
+	ByRule    map[int][]string
+	Truncated bool
+}
+
+func traceOf(rec *Rec) traceInfo {
+	calls := make([]string, len(rec.Ev))
+	for i, e := range rec.Ev {
+		calls[i] = e.Coq()
+	}
+	const maxCalls = 8000
+	ti := traceInfo{ByRule: map[int][]string{}}
+	ti.Truncated = len(calls) > maxCalls
+	if ti.Truncated {
+		calls = calls[:maxCalls]
+	}
+	ti.Trace = vlib.List(calls)
+	for _, v := range rec.shadow() {
+		if ti.ByRule[v.Rule] == nil {
+			ti.Rules = append(ti.Rules, v.Rule)
+		}
+		ti.ByRule[v.Rule] = append(ti.ByRule[v.Rule], fmt.Sprintf("call %d %s: %s [%s]", v.I, rec.Ev[v.I].String(), v.What, v.Site))
+	}
+	sort.Ints(ti.Rules)
+	return ti
+}
+
+func (ti traceInfo) sep() string {
+	sep := make([]string, len(ti.Rules))
+	for i, r := range ti.Rules {
+		sep[i] = fmt.Sprint(r)
+	}
+	return vlib.List(sep)
+}
+
+func (ti traceInfo) has(rule int) bool { return ti.ByRule[rule] != nil }
+
+// the whole-trace case: rules in `sep` are reported by their own KTraceRule case
+func traceCase(name string, rec *Rec, ti traceInfo, npages int, tags []string, descBase func(map[string]interface{}) map[string]interface{}) vlib.Case {
+	traceTerm := fmt.Sprintf("KTrace %d %s %s", npages, ti.sep(), ti.Trace)
+	ttags := tags
+	if ti.Truncated {
+		traceTerm = fmt.Sprintf("KTracePrefix %s %s", ti.sep(), ti.Trace)
+		ttags = append(append([]string(nil), tags...), "trace-truncated")
+	}
+	return vlib.Case{Kind: "trace", Coq: traceTerm,
+		Desc: descBase(map[string]interface{}{"calls": len(rec.Ev), "pages": npages, "rules_reported_separately": ti.Rules, "truncated": ti.Truncated}),
+		Tags: ttags, Nontrivial: len(rec.Ev) > 20, Key: name + "/trace"}
+}
+
+func ruleCase(name string, rec *Rec, ti traceInfo, r int, tags []string, descBase func(map[string]interface{}) map[string]interface{}) vlib.Case {
+	d := ti.ByRule[r]
+	if len(d) > 12 {
+		d = d[:12]
+	}
+	return vlib.Case{Kind: "trace-rule", Coq: fmt.Sprintf("KTraceRule %d %s", r, ti.Trace),
+		Desc: descBase(map[string]interface{}{"rule": r, "harness_side_diagnosis": d}),
+		Tags: append(append([]string(nil), tags...), rec.shadowTags(r)...), Nontrivial: true, Key: fmt.Sprintf("%s/trace-rule-%d", name, r)}
+}
+
+func traceCases(name string, rec *Rec, npages int, tags []string, descBase func(map[string]interface{}) map[string]interface{}) []vlib.Case {
+	ti := traceOf(rec)
+	cases := []vlib.Case{traceCase(name, rec, ti, npages, tags, descBase)}
+	for _, r := range ti.Rules {
+		cases = append(cases, ruleCase(name, rec, ti, r, tags, descBase))
+	}
+	return cases
+}
+
+// ------------------------------------------------------------------ drawing boundary documents (gendraw.go)
+
+type written struct {
+	Rec    *Rec
+	NPages int
+	Out    render.Outcome
+	Stage  string // "" | render | write
+	Tiles  []tileObs
+}
+
+// ---- KTile: every laid-out background layer through drawBackgroundImage (hook
+// VerifDrawBackgroundImage) on a fresh recording canvas, against Draw/Tiling.v
+
+type tileObs struct {
+	Coq   string
+	Tags  []string
+	Layer map[string]interface{}
+}
+
+func cRep(s string) string {
+	switch s {
+	case "no-repeat":
+		return "RNoRepeat"
+	case "repeat":
+		return "RRepeat"
+	case "round":
+		return "RRound"
+	}
+	return "RSpace"
+}
+
+func optQ(x Fl) string {
+	if !finite(x) {
+		return "QBad"
+	}
+	return "(QV " + vlib.Q32(x) + ")"
+}
+
+func tileOf(layer bo.BackgroundLayer, rendering pr.String, fonts string) (t tileObs, ok bool) {
+	if layer.Image == nil || layer.Position.Point[0] == nil || layer.Position.Point[1] == nil {
+		return t, false
+	}
+	pos, paint := layer.PositioningArea, layer.PaintingArea
+	in := []Fl{Fl(pos[0]), Fl(pos[1]), Fl(pos[2]), Fl(pos[3]), Fl(paint[2]), Fl(paint[3]), Fl(layer.Size[0]), Fl(layer.Size[1]),
+		Fl(layer.Position.Point[0].V()), Fl(layer.Position.Point[1].V())}
+	if !vlib.Finite32(in...) {
+		return t, false // a non finite layer cannot be written as rationals: left to the trace monitor
+	}
+	rec := NewRec()
+	page := rec.AddPage(0, 0, 100, 100)
+	o := render.Guard(func() { document.VerifDrawBackgroundImage(page, render.NewFonts(fonts), layer, rendering) })
+	if o.Status != "ok" {
+		return t, false
+	}
+	out := "TNothing"
+	var group, pattern *Ev
+	for i := range rec.Ev {
+		e := &rec.Ev[i]
+		if e.C != 1 {
+			continue
+		}
+		if e.Op == "CNewGroup" && group == nil {
+			group = e
+		}
+		if e.Op == "CSetColorPattern" && pattern == nil {
+			pattern = e
+		}
+	}
+	var got []Fl
+	if group != nil && pattern != nil {
+		got = []Fl{group.Nums[2], group.Nums[3], pattern.Nums[6], pattern.Nums[7]}
+		out = fmt.Sprintf("(TDrawn (mktile_obs %s %s %s %s))", optQ(got[0]), optQ(got[1]), optQ(got[2]), optQ(got[3]))
+	}
+	ax := func(i int) string {
+		return fmt.Sprintf("(mkaxis %s %s %s %s %s %s)", cRep(layer.Repeat.Reps[i]), vlib.Q32(in[i]), vlib.Q32(in[2+i]), vlib.Q32(in[4+i]), vlib.Q32(in[6+i]), vlib.Q32(in[8+i]))
+	}
+	t.Coq = fmt.Sprintf("KTile %s %s %s", ax(0), ax(1), out)
+	t.Tags = []string{"tile", "tile-repeat-x=" + layer.Repeat.Reps[0], "tile-repeat-y=" + layer.Repeat.Reps[1]}
+	for i, a := range []string{"x", "y"} {
+		if in[6+i] != 0 {
+			t.Tags = append(t.Tags, "tiles-"+a+"="+bucket(float64(in[2+i]/in[6+i])))
+		} else {
+			t.Tags = append(t.Tags, "tile-"+a+"=0")
+		}
+	}
+	t.Layer = map[string]interface{}{"repeat": layer.Repeat.Reps, "positioning_area": pos, "painting_area": paint, "tile_size": layer.Size,
+		"position": []Fl{in[8], in[9]}, "received_cell_and_translation": fmt.Sprint(got)}
+	return t, true
+}
+
+func tilesOf(doc *document.Document, fonts string) (out []tileObs) {
+	var walk func(b bo.Box)
+	walk = func(b bo.Box) {
+		f := b.Box()
+		if bg := f.Background; bg != nil {
+			for _, l := range bg.Layers {
+				if t, ok := tileOf(l, bg.ImageRendering, fonts); ok {
+					out = append(out, t)
+				}
+			}
+		}
+		for _, c := range b.AllChildren() {
+			walk(c)
+		}
+	}
+	for _, p := range doc.Pages {
+		walk(document.VerifPageBox(p))
+	}
+	return out
+}
+
+func renderWrite(src string, zoom Fl, wantTiles bool) written {
+	var (
+		doc *document.Document
+		w   written
+	)
+	w.Out = render.GuardTimeout(20*time.Second, func() {
+		h, err := render.ParseHTML(src, true, fetcher)
+		if err != nil {
+			panic(err)
+		}
+		d := document.Render(h, nil, false, render.NewFonts("pango"))
+		doc = &d
+	})
+	if w.Out.Status != "ok" {
+		w.Stage = "render"
+		return w
+	}
+	w.NPages = len(doc.Pages)
+	if wantTiles { // before Write: drawBackground prepends the marks layer to the page background
+		render.Guard(func() { w.Tiles = tilesOf(doc, "pango") })
+	}
+	w.Out = render.GuardTimeout(20*time.Second, func() {
+		w.Rec = NewRec()
+		doc.Write(w.Rec, zoom, nil)
+	})
+	if w.Out.Status != "ok" {
+		w.Stage = "write"
+	}
+	return w
+}
+
+func ownPanicSite(site string) bool {
+	return strings.HasPrefix(site, "html/document/") || strings.HasPrefix(site, "text/draw") || strings.HasPrefix(site, "backend/") || strings.HasPrefix(site, "images/")
+}
+
+// runDrawDoc renders a drawing boundary document and returns its trace cases.
+// Rule violations seen by the shadow are shrunk: the page alone, then every
+// probe alone; a KTraceRule case is emitted for every isolated input that
+// still violates the rule (and for the whole document when none does).
+func runDrawDoc(name string, d drawDoc, zoom Fl) (cases []vlib.Case, status string) {
+	tags := append([]string{"drawdoc", fmt.Sprintf("zoom=%v", zoom)}, d.Tags...)
+	fam := map[string]bool{}
+	for _, p := range d.Probes {
+		fam[p.Tags[0]] = true
+	}
+	var fams []string
+	for f := range fam {
+		fams = append(fams, f)
+	}
+	sort.Strings(fams)
+	desc := func(src string, probe interface{}) func(map[string]interface{}) map[string]interface{} {
+		return func(extra map[string]interface{}) map[string]interface{} {
+			m := map[string]interface{}{"doc": name, "html": src, "zoom": zoom, "probe": probe}
+			for k, v := range extra {
+				m[k] = v
+			}
+			return m
+		}
+	}
+	full := d.html(-1)
+	w := renderWrite(full, zoom, true)
+	panicCase := func(src string, w written, tags []string, probe interface{}) vlib.Case {
+		return vlib.Case{Kind: "write-panic", Coq: fmt.Sprintf("KTrace %d [] []", w.NPages+1), Tags: append(append([]string(nil), tags...), "panic"),
+			Desc: desc(src, probe)(map[string]interface{}{"outcome": w.Out}), Nontrivial: true}
+	}
+	if w.Stage == "render" {
+		return nil, "draw-render-" + w.Out.Status // layout crashes / hangs belong to C01
+	}
+	seenTile := map[string]bool{}
+	for _, t := range w.Tiles {
+		if seenTile[t.Coq] {
+			continue
+		}
+		seenTile[t.Coq] = true
+		cases = append(cases, vlib.Case{Kind: "tile", Coq: t.Coq, Tags: append(append([]string(nil), tags...), t.Tags...),
+			Desc: desc(full, nil)(map[string]interface{}{"layer": t.Layer}), Nontrivial: true})
+	}
+	if w.Stage == "write" {
+		if w.Out.Status == "panic" && w.Out.Msg != runawayMsg && ownPanicSite(w.Out.Site) {
+			// shrink: the first probe that panics alone
+			for i, p := range d.Probes {
+				src := d.html(i)
+				if wi := renderWrite(src, zoom, false); wi.Stage == "write" && wi.Out.Status == "panic" && wi.Out.Msg != runawayMsg && ownPanicSite(wi.Out.Site) {
+					return append(cases, panicCase(src, wi, append(append([]string(nil), tags...), p.Tags...), p.HTML)), "draw-write-panic"
+				}
+			}
+			return append(cases, panicCase(full, w, append(tags, fams...), nil)), "draw-write-panic"
+		}
+		return cases, "draw-write-" + w.Out.Status + "@" + w.Out.Site
+	}
+	ti := traceOf(w.Rec)
+	cases = append(cases, traceCase(name, w.Rec, ti, w.NPages, append(append([]string(nil), tags...), fams...), desc(full, nil)))
+	if len(ti.Rules) == 0 {
+		return cases, "draw-ok"
+	}
+	found, byPage, nShrunk := map[int]bool{}, map[int]bool{}, map[int]int{}
+	try := func(key string, src string, ptags []string, probe interface{}) {
+		wi := renderWrite(src, zoom, false)
+		if wi.Stage != "" {
+			return
+		}
+		tii := traceOf(wi.Rec)
+		for _, r := range ti.Rules {
+			if tii.has(r) && !byPage[r] && nShrunk[r] < 2 { // at most two isolated inputs per rule and document
+				nShrunk[r]++
+				found[r] = true
+				cases = append(cases, ruleCase(name+"/"+key, wi.Rec, tii, r, append(append([]string(nil), tags...), ptags...), desc(src, probe)))
+			}
+		}
+	}
+	try("page", d.html(-2), []string{"probe=none"}, "(no probe: page level style only)")
+	all := true
+	for _, r := range ti.Rules {
+		byPage[r] = found[r]
+		all = all && found[r]
+	}
+	if !all { // the page alone does not explain every rule
+		for i, p := range d.Probes {
+			try(fmt.Sprintf("probe-%d", i), d.html(i), p.Tags, p.HTML)
+		}
+	}
+	for _, r := range ti.Rules {
+		if !found[r] {
+			cases = append(cases, ruleCase(name, w.Rec, ti, r, append(append(append([]string(nil), tags...), fams...), "unshrunk"), desc(full, nil)))
+		}
+	}
+	return cases, "draw-violations"
 }
 
 // ------------------------------------------------------------------ documents
@@ -400,6 +716,9 @@ func runDocument(in docInput) (cases []vlib.Case, status string) {
 		doc.Write(rec, in.Zoom, nil)
 	})
 	if o.Status != "ok" {
+		if o.Msg == runawayMsg {
+			return cases, "write-runaway"
+		}
 		if strings.HasPrefix(o.Site, "html/document/document.go") || strings.HasPrefix(o.Site, "text/draw") || strings.HasPrefix(o.Site, "backend/") {
 			cases = append(cases, vlib.Case{Kind: "write-panic", Coq: fmt.Sprintf("KTrace %d [] []", len(doc.Pages)+1), Tags: append(tags, "panic"),
 				Desc: descBase(map[string]interface{}{"outcome": o}), Nontrivial: true})
@@ -408,52 +727,7 @@ func runDocument(in docInput) (cases []vlib.Case, status string) {
 	}
 
 	// KTrace (+ one KTraceRule per rule the harness side shadow saw violated)
-	{
-		calls := make([]string, len(rec.Ev))
-		for i, e := range rec.Ev {
-			calls[i] = e.Coq()
-		}
-		// a very long trace (e.g. thousands of wave segments) overflows coqc's stack:
-		// the monitor then runs on a prefix (sound: acceptance is prefix closed,
-		// C14_protocol_prefix_closed; the page count / balance test is dropped)
-		const maxCalls = 8000
-		truncated := len(calls) > maxCalls
-		if truncated {
-			calls = calls[:maxCalls]
-		}
-		trace := vlib.List(calls)
-		byRule := map[int][]string{}
-		var rules []int
-		for _, v := range rec.shadow() {
-			if byRule[v.Rule] == nil {
-				rules = append(rules, v.Rule)
-			}
-			byRule[v.Rule] = append(byRule[v.Rule], fmt.Sprintf("call %d %s: %s [%s]", v.I, rec.Ev[v.I].String(), v.What, v.Site))
-		}
-		sort.Ints(rules)
-		sep := make([]string, len(rules))
-		for i, r := range rules {
-			sep[i] = fmt.Sprint(r)
-		}
-		traceTerm := fmt.Sprintf("KTrace %d %s %s", len(doc.Pages), vlib.List(sep), trace)
-		ttags := tags
-		if truncated {
-			traceTerm = fmt.Sprintf("KTracePrefix %s %s", vlib.List(sep), trace)
-			ttags = append(append([]string(nil), tags...), "trace-truncated")
-		}
-		cases = append(cases, vlib.Case{Kind: "trace", Coq: traceTerm,
-			Desc: descBase(map[string]interface{}{"calls": len(rec.Ev), "pages": len(doc.Pages), "rules_reported_separately": rules, "truncated": truncated}),
-			Tags: ttags, Nontrivial: len(rec.Ev) > 20, Key: in.Name + "/trace"})
-		for _, r := range rules {
-			d := byRule[r]
-			if len(d) > 12 {
-				d = d[:12]
-			}
-			cases = append(cases, vlib.Case{Kind: "trace-rule", Coq: fmt.Sprintf("KTraceRule %d %s", r, trace),
-				Desc: descBase(map[string]interface{}{"rule": r, "harness_side_diagnosis": d}),
-				Tags: append(append([]string(nil), tags...), rec.shadowTags(r)...), Nontrivial: true, Key: fmt.Sprintf("%s/trace-rule-%d", in.Name, r)})
-		}
-	}
+	cases = append(cases, traceCases(in.Name, rec, len(doc.Pages), tags, descBase)...)
 
 	// KDoc
 	if finitePagesData(vp) && recFinite(rec) && rec.GotAnch && rec.GotBk && len(rec.Pages) == len(doc.Pages) {
@@ -591,7 +865,10 @@ func main() {
 		}
 		return
 	}
+	// a runaway allocation inside /repo must fail fast instead of swapping the machine
+	_ = syscall.Setrlimit(syscall.RLIMIT_AS, &syscall.Rlimit{Cur: 8 << 30, Max: 8 << 30})
 	rng := vlib.NewRng(vlib.Seed())
+	debug := os.Getenv("VERIF_C14_DEBUG") != ""
 	w := vlib.NewWriter(*out)
 	defer w.Close()
 	stats := map[string]int{}
@@ -614,14 +891,28 @@ func main() {
 		}
 	}
 
-	nd := 0
+	nd, ndd := 0, 0
 	for w.N() < *n {
 		r := rng.Fork()
-		switch k := r.Intn(10); {
+		switch k := r.Intn(13); {
 		case k <= 2:
 			w.Add(genResolve(r))
 		case k <= 5:
 			w.Add(genBookmarks(r))
+		case k <= 8:
+			d := genDrawDoc(r)
+			ndd++
+			if debug {
+				fmt.Fprintf(os.Stderr, "draw-%d\n%s\n", ndd, d.html(-1))
+			}
+			cs, st := runDrawDoc(fmt.Sprintf("draw-%d", ndd), d, vlib.Pick(r, zooms))
+			stats[st]++
+			if debug {
+				fmt.Fprintf(os.Stderr, "status draw-%d %s\n", ndd, st)
+			}
+			for _, c := range cs {
+				w.Add(c)
+			}
 		default:
 			g := genDocument(r)
 			nd++
@@ -633,5 +924,5 @@ func main() {
 			}
 		}
 	}
-	fmt.Fprintf(os.Stderr, "c14: %d cases, %d generated documents, outcomes %v\n", w.N(), nd, stats)
+	fmt.Fprintf(os.Stderr, "c14: %d cases, %d generated documents, %d drawing boundary documents, outcomes %v\n", w.N(), nd, ndd, stats)
 }
